@@ -168,6 +168,24 @@ func runC15(c *Ctx) {
 		}
 		c.Case("mono", L(S("mono"), Z(x), Z(y), S(unit)), L(S(measurement.Label(x, unit)), S(measurement.Label(y, unit))), x != y, "op:mono")
 	}
+	// monotonicity across every unit step: the value just below a unit boundary vs the boundary
+	for _, ut := range measurement.UnitTypes {
+		for _, u := range ut.Units {
+			for _, w := range ut.Units {
+				q := w.Factor / u.Factor
+				if q > 1 && q < 9e18 {
+					k := int64(q)
+					for _, d := range []int64{1, 2, 3, 5, 7, 10} {
+						for _, al := range measurement.VerifAliases(u) {
+							if k-d > 0 {
+								c.Case("mono-boundary", L(S("mono"), Z(k-d), Z(k), S(al)), L(S(measurement.Label(k-d, al)), S(measurement.Label(k, al))), true, "op:mono")
+							}
+						}
+					}
+				}
+			}
+		}
+	}
 	// percentages
 	for k := 0; k < c.Budget(400, 20000); k++ {
 		v, t := PickI(c.R, vals), PickI(c.R, vals)
